@@ -80,7 +80,8 @@ Theorem c12_history_holds : forall e fs ops,
 Proof. exact main_history_holds. Qed.
 Print Assumptions c12_history_holds.
 
-(* all histories, including cpu.max on v2 and the BE cpuset calls: crash points, final state and
+(* all histories, including cpu.max on v2 and the BE cpuset calls (applyCPUSetWithNonePolicy,
+   adjustByCPUSet, recover): crash points, final state and
    frame never fail (the code is 0 or 3) *)
 Theorem c12_history_hard : forall e fs ops,
   validb e fs = true -> hist_hyps e (mkSt fs []) ops ->
@@ -181,6 +182,17 @@ Example c12_rec_hyps_nonvacuous :
   /\ snd (rec_apply e (mkSt [(0, 12); (1, 12); (2, 12)] []) [0; 1; 2] 15) = [(0, 15); (1, 15); (2, 15)]
   /\ validb e (apply_writes e [(2, 15)] [(0, 12); (1, 12); (2, 12)]) = false.
 Proof. exact ex_rec_hyps. Qed.
+
+(* adjustByCPUSet (history op OAdj = applyCPUSetWithNonePolicy with old = the BE root's cpuset and
+   new = adj_new, both recomputed from the files; covered by c12_history_hard / c12_be_two_phase) *)
+Example c12_adjust_nonvacuous :
+  let e := mkEnv 0 [(0, 0); (1, 0); (2, 0)] [(1, 0); (2, 1)] in
+  let fs := [(0, 255); (1, 255); (2, 3)] in
+  adj_new 255 2000 255 = 3
+  /\ be_hyps e fs [0; 1; 2] 255 3 = true
+  /\ snd (step_op e (mkSt fs []) (OAdj [0; 1; 2] 255 2000)) = [(2, 255); (2, 3); (1, 3); (0, 3)]
+  /\ validb e (apply_writes e [(0, 3)] fs) = false.
+Proof. exact ex_adj. Qed.
 
 Example c12_be_hyps_nonvacuous :
   be_hyps (mkEnv 1 [(0, 0); (1, 0); (2, 0)] [(1, 0); (2, 1)]) [(0, 3); (1, 3); (2, 1)] [0; 1; 2] 3 12 = true
